@@ -426,6 +426,7 @@ def check_case(ctx, c, origin):
     sub = c.get("kind") or c.get("rep") or c.get("conv") or ""
     ctx.case(("search", canon), True)
     ctx.bump(f"search:{c['family']}" + (f":{sub}" if sub else ""))
+    ctx.bump(f"search:scale={c.get('scale', 1.0):g}")
     if len(ctx.samples) < 8 and origin == "random" and ctx.dist[f"search:{c['family']}" + (f":{sub}" if sub else "")] == 1 \
             and c["family"] in ("cylinder_partition", "cuboid_repr"):
         ctx.samples.append({"search_case": c})
